@@ -190,7 +190,28 @@ fn cases(w: &World) -> Vec<Case> {
     let pf = w.real_pf.clone();
     c.push(Case { contract: "pricefeed", variant: "append_price", addr: pf.clone(), msg: ser(&PfExec::AppendPrice { key: "ETH".into(), price: Uint128::new(11 * D), timestamp: now }), allowed: vec!["feed_owner"], can_succeed: true });
     c.push(Case { contract: "pricefeed", variant: "append_multiple_price", addr: pf.clone(), msg: ser(&PfExec::AppendMultiplePrice { key: "ETH".into(), prices: vec![Uint128::new(11 * D), Uint128::new(12 * D)], timestamps: vec![now - 1, now] }), allowed: vec!["feed_owner"], can_succeed: true });
-    c.push(Case { contract: "pricefeed", variant: "update_owner", addr: pf, msg: ser(&PfExec::UpdateOwner { owner: "zed".into() }), allowed: vec!["feed_owner"], can_succeed: true });
+    c.push(Case { contract: "pricefeed", variant: "update_owner", addr: pf.clone(), msg: ser(&PfExec::UpdateOwner { owner: "zed".into() }), allowed: vec!["feed_owner"], can_succeed: true });
+    // ---- degenerate arguments (empty batches, zero amounts, no-op updates, entries that are already there / not there):
+    // the role holder need not succeed with them, but nobody else may, and a refusal changes nothing
+    let none_cfg = VammExec::UpdateConfig { base_asset_holding_cap: None, open_interest_notional_cap: None, toll_ratio: None, spread_ratio: None, fluctuation_limit_ratio: None, margin_engine: None, insurance_fund: None, pricefeed: None, spot_price_twap_interval: None };
+    c.push(Case { contract: "vamm", variant: "update_config", addr: v0.clone(), msg: ser(&none_cfg), allowed: vec!["vamm_owner"], can_succeed: false });
+    c.push(Case { contract: "vamm", variant: "set_open", addr: v0.clone(), msg: ser(&VammExec::SetOpen { open }), allowed: vec!["vamm_owner", "vamm_ifund"], can_succeed: false });
+    c.push(Case { contract: "vamm", variant: "swap_input", addr: v0.clone(), msg: ser(&VammExec::SwapInput { direction: Direction::AddToAmm, quote_asset_amount: Uint128::zero(), base_asset_limit: Uint128::zero(), can_go_over_fluctuation: true }), allowed: vec!["vamm_engine"], can_succeed: false });
+    c.push(Case { contract: "vamm", variant: "swap_output", addr: v0.clone(), msg: ser(&VammExec::SwapOutput { direction: Direction::AddToAmm, base_asset_amount: Uint128::zero(), quote_asset_limit: Uint128::zero() }), allowed: vec!["vamm_engine"], can_succeed: false });
+    c.push(Case { contract: "engine", variant: "update_config", addr: e.clone(), msg: ser(&EngineExec::UpdateConfig { owner: None, insurance_fund: None, fee_pool: None, initial_margin_ratio: None, maintenance_margin_ratio: None, partial_liquidation_ratio: None, liquidation_fee: None }), allowed: vec!["engine_owner"], can_succeed: false });
+    c.push(Case { contract: "engine", variant: "set_pause", addr: e.clone(), msg: ser(&EngineExec::SetPause { pause: p }), allowed: vec!["pauser"], can_succeed: false });
+    c.push(Case { contract: "engine", variant: "add_whitelist", addr: e.clone(), msg: ser(&EngineExec::AddWhitelist { address: "carol".into() }), allowed: vec!["pauser"], can_succeed: false });
+    c.push(Case { contract: "engine", variant: "remove_whitelist", addr: e.clone(), msg: ser(&EngineExec::RemoveWhitelist { address: "dave".into() }), allowed: vec!["pauser"], can_succeed: false });
+    c.push(Case { contract: "insurance_fund", variant: "add_vamm", addr: f.clone(), msg: ser(&IfExec::AddVamm { vamm: w.vamms[0].to_string() }), allowed: vec!["ifund_owner"], can_succeed: false });
+    c.push(Case { contract: "insurance_fund", variant: "remove_vamm", addr: f.clone(), msg: ser(&IfExec::RemoveVamm { vamm: w.unregistered.clone().unwrap().to_string() }), allowed: vec!["ifund_owner"], can_succeed: false });
+    c.push(Case { contract: "insurance_fund", variant: "withdraw", addr: f.clone(), msg: ser(&IfExec::Withdraw { token: AssetInfo::Token { contract_addr: tok.clone() }, amount: Uint128::zero() }), allowed: vec!["the_engine_contract"], can_succeed: false });
+    c.push(Case { contract: "fee_pool", variant: "send_token", addr: fp.clone(), msg: ser(&FpExec::SendToken { token: tok.to_string(), amount: Uint128::zero(), recipient: "zed".into() }), allowed: vec!["feepool_owner"], can_succeed: false });
+    c.push(Case { contract: "fee_pool", variant: "send_token", addr: fp.clone(), msg: ser(&FpExec::SendToken { token: "ujunox".into(), amount: Uint128::new(1), recipient: "zed".into() }), allowed: vec!["feepool_owner"], can_succeed: false });
+    c.push(Case { contract: "fee_pool", variant: "add_token", addr: fp.clone(), msg: ser(&FpExec::AddToken { token: tok.to_string() }), allowed: vec!["feepool_owner"], can_succeed: false });
+    c.push(Case { contract: "fee_pool", variant: "remove_token", addr: fp.clone(), msg: ser(&FpExec::RemoveToken { token: "ujunox".into() }), allowed: vec!["feepool_owner"], can_succeed: false });
+    c.push(Case { contract: "pricefeed", variant: "append_multiple_price", addr: pf.clone(), msg: ser(&PfExec::AppendMultiplePrice { key: "ETH".into(), prices: vec![], timestamps: vec![] }), allowed: vec!["feed_owner"], can_succeed: false });
+    c.push(Case { contract: "pricefeed", variant: "append_multiple_price", addr: pf.clone(), msg: ser(&PfExec::AppendMultiplePrice { key: "ETH".into(), prices: vec![Uint128::new(11 * D)], timestamps: vec![] }), allowed: vec!["feed_owner"], can_succeed: false });
+    c.push(Case { contract: "pricefeed", variant: "append_price", addr: pf.clone(), msg: ser(&PfExec::AppendPrice { key: "ETH".into(), price: Uint128::zero(), timestamp: 0 }), allowed: vec!["feed_owner"], can_succeed: false });
     c
 }
 
